@@ -149,7 +149,25 @@ def _run(ev, work, thorough):
     cases = res.printed_json()
     if not res.completed or not cases:
         raise T.TLCError("ManyFiles export failed:\n" + res.out[-2000:])
-    ev.add_tlc("ManyFiles: collections x ways of opening x path kinds x verification x schema deviation", res, cases=len(cases))
+    # the kind of schema deviation multiplies the deviating cases by five: replay each deviating configuration with ONE of
+    # the kinds, rotating, so that every kind meets every fifth configuration
+    kinds_order = ["name", "ptype", "width", "logical", "optional"]
+    groups = {}
+    for c in cases:
+        key = json.dumps({k: v for k, v in c.items() if k != "badkind"}, sort_keys=True)
+        groups.setdefault(key, []).append(c)
+    picked = []
+    for gi, (key, cs) in enumerate(sorted(groups.items())):
+        if len(cs) == 1:
+            picked.append(cs[0])
+        else:
+            import zlib
+            want = kinds_order[zlib.crc32(key.encode()) % len(kinds_order)]
+            picked.append(next(c for c in cs if c.get("badkind") == want))
+    exported = len(cases)
+    cases = picked
+    ev.add_tlc("ManyFiles: collections x ways of opening x path kinds x verification x schema deviation (x kind of deviation)",
+               res, cases=exported, replayed_configurations=len(cases))
     base = os.path.join(work, "many")
     os.makedirs(base)
     jobs = []
